@@ -138,6 +138,8 @@ def run(ctx):
                 if mentions_field(atom, 'Node::in_edge_') and '&&' not in dstr(atom) and '||' not in dstr(atom):
                     return 'producer' if pol is False else None
                 k = dstr(atom)
+                if 'validation_out_edges' in k and 'empty' in k and '&&' not in k and '||' not in k:
+                    return 'validated-edges' if pol is True else None
                 if 'out_edges' in k and 'empty' in k and '&&' not in k and '||' not in k:
                     return 'consumers' if pol is True else None
                 return None
@@ -170,12 +172,19 @@ def run(ctx):
                                         is_blocker=lambda x: x['k'] == 'call' and x.get('name') == 'State::LookupNode')
                         if r is not None:
                             bad = (sorted(kinds), r[0])
-            ctx.check('C18.V1', alive_kinds == {'producer', 'consumers'}, f.name, 'dead-guard:tests-absent', f.where(e),
-                      'whether a log key is dead is decided by looking at the node\'s producer and consumers (tests found: %s)' % sorted(alive_kinds))
+            ctx.check('C18.V1', alive_kinds == {'producer', 'consumers', 'validated-edges'}, f.name, 'dead-guard:tests-absent', f.where(e),
+                      'whether a log key is dead is decided by looking at the node\'s producer, its consumers and the edges it validates '
+                      '(every way a node appears in the graph; tests found: %s)' % sorted(alive_kinds))
             ctx.check('C18.V1', bad is None, f.name, 'dead-guard:weakened', f.where(e),
-                      'a log key is removed only if its node is unknown or has neither producer nor consumers',
+                      'a log key is removed only if its node is unknown or appears nowhere in the graph (no producer, no consumer, validates nothing)',
                       witness=None if bad is None else {'fact': bad[0], 'blocks': bad[1]})
             reached_only_via(ctx, 'C18.V1', f, e, lambda a: True, None, 'n/a', 'n/a') if False else None
+            # a file can also appear in the graph as a discovered dependency (deps log): a node created by the deps log has no
+            # edge until a scan splices it in, so the edge tests above cannot see that use - the decision has to ask the deps log
+            asks_deps = any((x.get('name') or '').startswith('DepsLog::') for g in [f] + [prog.functions[t] for c in f.events('call') for t in prog.call_targets(c) if t in prog.functions]
+                            for x in g.events('call'))
+            ctx.check('C18.V1', asks_deps, f.name, 'dead-guard:deps-log-users-ignored', f.where(e),
+                      'before a log key is removed as dead, the deps log is asked whether a recorded dependency list still names the file')
     ctx.floor('C18.V1', 6)
 
     # ---- TA1: sibling guards of the three scopes ----------------------------------------------
